@@ -18,7 +18,7 @@ theorem days_low {y m : Nat} (hl : LowOk y m) (h1 : 1 ≤ m) (h2 : m ≤ 12) : 6
     rw [days_1900_3'] at this; exact this
 
 /-- the elements of the week's list are instances of the week -/
-theorem weekL_sound (r : Rule) (p : Inst) (nti : Nat) (hr : WfRule r) (hp : WfInst p) (hs : SeedOk r p)
+theorem weekL_sound (r : Rule) (p : Inst) (nti : Nat) (hr : WfRule r) (hp : WfInst p)
     (hy2 : p.y ≤ 2099) {y0 m0 d0 : Nat} (hv0 : VD y0 m0 d0) (hl0 : LowOk y0 m0)
     (hback : Carry y0 m0 (d0 + wlyBack r p) p.y p.m p.d) (j y m d : Nat)
     (hcw : Carry y0 m0 (d0 + j * wk (wctx r p nti)) y m d)
@@ -39,14 +39,14 @@ theorem weekL_sound (r : Rule) (p : Inst) (nti : Nat) (hr : WfRule r) (hp : WfIn
   have hb := hwk (d + o) hrange.1 hrange.2 _ _ _ hcd
   have hbit : bit (monMask r.mon) (dateOf y m (d + o)).2.1 = true := by
     rw [dateOf_mon]; exact hsel
-  exact ⟨wly_inst r p nti hr hp hs hy2 hv0 hl0 hback j o _ _ _ ho habs hb hbit t ht,
+  exact ⟨wly_inst r p nti hr hp hy2 hv0 hl0 hback j o _ _ _ ho habs hb hbit t ht,
     (wly_days r p nti hy2 hv0 hl0 hback j o _ _ _ ho habs hb).1⟩
 
 theorem week_le (n : Int) : n ≤ weekStart n + 6 ∧ weekStart n ≤ n := by
   unfold weekStart wdayOf; omega
 
 /-- every instance of the week is in the week's list -/
-theorem weekL_complete (r : Rule) (p : Inst) (nti : Nat) (hr : WfRule r) (hp : WfInst p) (hs : SeedOk r p)
+theorem weekL_complete (r : Rule) (p : Inst) (nti : Nat) (hr : WfRule r) (hp : WfInst p)
     (hy2 : p.y ≤ 2099) {y0 m0 d0 : Nat} (hv0 : VD y0 m0 d0) (hl0 : LowOk y0 m0) (hy0 : y0 ≤ 2099)
     (hback : Carry y0 m0 (d0 + wlyBack r p) p.y p.m p.d) (j y m d : Nat)
     (hcw : Carry y0 m0 (d0 + j * wk (wctx r p nti)) y m d)
@@ -102,7 +102,7 @@ theorem weekL_complete (r : Rule) (p : Inst) (nti : Nat) (hr : WfRule r) (hp : W
       rw [days_2100_2] at hge2
       unfold dayOf at hule
       omega
-  obtain ⟨k', o', ho', hc', hmon', hweek', ix, hix⟩ := wly_inst_conv r p nti hr hp hs hy2 hv0 hl0 hy0 hback u hu hub
+  obtain ⟨k', o', ho', hc', hmon', hweek', ix, hix⟩ := wly_inst_conv r p nti hr hp hy2 hv0 hl0 hy0 hback u hu hub
   -- the same week
   have hk : k' = j := by
     rw [huw] at hweek'
